@@ -84,6 +84,10 @@ def run(ck):
         if ck.prop == "C19":
             ck.violation({"kind": "backend-disagreement", "mem": RES.get(d["mem"]), "redb": RES.get(d["redb"])},
                          f"in-memory and redb stores returned different result kinds: {d}", d)
+    for d in s["extra"].get("backend_metadata_disagreements", []):
+        if ck.prop == "C19":
+            ck.violation({"kind": "backend-disagreement", "what": "sampling-metadata"},
+                         f"in-memory and redb stores return different sampling metadata after the same history: {json.dumps(d)[:300]}", d)
     if s["extra"].get("concurrent_insert_pairs", 0) < 5:
         raise vf.ToolError("vacuity: fewer than 5 concurrent insert pairs were executed")
     for line in open(trace):
